@@ -246,6 +246,11 @@ func EncodeFilePath(filePath string) []byte {
 	for _, section := range pathSections {
 		bytes = append(bytes, []byte{0, 0}...)
 
+		// Names are stored in UTF-8 and travel in Mac Roman, as in the file list.
+		if enc, err := txtEncoder.String(section); err == nil {
+			section = enc
+		}
+
 		pathStr := []byte(section)
 		bytes = append(bytes, byte(len(pathStr)))
 		bytes = append(bytes, pathStr...)
